@@ -298,3 +298,125 @@ pub fn check_unchanged<C: KComp>(buf: &[C], old: &[C]) {
         i += 1;
     }
 }
+
+/// Copy the `w x h` region at (l, t) of a `pw`-wide parent (n components per pixel).
+pub fn extract_region<C: Copy, const M: usize, const K: usize>(parent: &[C; M], n: usize, pw: usize, l: usize, t: usize, w: usize, h: usize) -> [C; K] {
+    let mut out = [parent[0]; K];
+    let mut y = 0;
+    while y < h {
+        let mut x = 0;
+        while x < w {
+            let mut c = 0;
+            while c < n {
+                out[(y * w + x) * n + c] = parent[((t + y) * pw + l + x) * n + c];
+                c += 1;
+            }
+            x += 1;
+        }
+        y += 1;
+    }
+    out
+}
+
+/// Nearest neighbour: destination pixel (x, y) is a bit-exact copy of source pixel (ix[x], iy[y])
+/// (or of the alternative index where the ideal coordinate is within 2^-40 of an integer).
+pub fn check_nearest<C: KComp>(
+    buf: &[C],
+    old: &[C],
+    n: usize,
+    pw: usize,
+    ph: usize,
+    dl: usize,
+    dt: usize,
+    dw: usize,
+    dh: usize,
+    src: &[C],
+    sw: usize,
+    sh: usize,
+    ix: &[usize],
+    ixa: &[usize],
+    iy: &[usize],
+    iya: &[usize],
+) {
+    let mut y = 0;
+    while y < ph {
+        let mut x = 0;
+        while x < pw {
+            let inside = x >= dl && x < dl + dw && y >= dt && y < dt + dh;
+            if inside {
+                let (dx, dy) = (x - dl, y - dt);
+                assert!(ix[dx] < sw && iy[dy] < sh, "C11: the ideal source index lies inside the source");
+                let mut m = [true; 4];
+                let mut c = 0;
+                while c < n {
+                    let got = buf[(y * pw + x) * n + c].to_i64();
+                    m[0] &= got == src[(iy[dy] * sw + ix[dx]) * n + c].to_i64();
+                    m[1] &= got == src[(iy[dy] * sw + ixa[dx]) * n + c].to_i64();
+                    m[2] &= got == src[(iya[dy] * sw + ix[dx]) * n + c].to_i64();
+                    m[3] &= got == src[(iya[dy] * sw + ixa[dx]) * n + c].to_i64();
+                    c += 1;
+                }
+                assert!(
+                    m[0] || m[1] || m[2] || m[3],
+                    "C11: destination pixel is a bit-exact copy of the source pixel under its centre"
+                );
+            } else {
+                let mut c = 0;
+                while c < n {
+                    let p = (y * pw + x) * n + c;
+                    assert!(buf[p].to_i64() == old[p].to_i64(), "P: bytes outside the destination rectangle are unchanged");
+                    c += 1;
+                }
+            }
+            x += 1;
+        }
+        y += 1;
+    }
+    let mut p = pw * ph * n;
+    while p < buf.len() {
+        assert!(buf[p].to_i64() == old[p].to_i64(), "P: spare capacity after the image is unchanged");
+        p += 1;
+    }
+}
+
+/// `resize_typed` from a contiguous typed source into a contiguous typed destination.
+pub fn run_resize<P: PixelTrait>(
+    rz: &mut Resizer,
+    src: &[P::Component],
+    sw: usize,
+    sh: usize,
+    dst: &mut [P::Component],
+    dw: usize,
+    dh: usize,
+    opts: &fast_image_resize::ResizeOptions,
+) -> bool {
+    use fast_image_resize::images::{TypedImage, TypedImageRef};
+    let src_img = TypedImageRef::<P>::new(sw as u32, sh as u32, as_pixels::<P>(src)).unwrap();
+    let mut dst_img = TypedImage::<P>::from_pixels_slice(dw as u32, dh as u32, as_pixels_mut::<P>(dst)).unwrap();
+    rz.resize_typed(&src_img, &mut dst_img, opts).is_ok()
+}
+
+/// `b` = `a`, except that the colour components of every pixel whose alpha is zero are taken from `c`.
+pub fn hide_under_zero_alpha<C: KComp, const M: usize>(a: &[C; M], c: &[C; M], n: usize) -> [C; M] {
+    let mut b = *a;
+    let mut p = 0;
+    while p < M / n {
+        if a[p * n + n - 1].to_i64() == 0 {
+            let mut k = 0;
+            while k < n - 1 {
+                b[p * n + k] = c[p * n + k];
+                k += 1;
+            }
+        }
+        p += 1;
+    }
+    b
+}
+
+pub fn check_same<C: KComp>(x: &[C], y: &[C], _msg: &str) {
+    let mut i = 0;
+    while i < x.len() {
+        assert!(x[i].to_i64() == y[i].to_i64(), "P: the two runs give identical destination components");
+        i += 1;
+    }
+}
